@@ -45,6 +45,7 @@ type Tx struct {
 	// the plan), Amt = value, Pay = calldata / init code hex ("store" = the storage test contract), Gas, NonceOff
 	Gas      uint64 `json:"gas,omitempty"`
 	NonceOff int    `json:"nonceoff,omitempty"`
+	Free     bool   `json:"free,omitempty"` // gas price 0 (any gas allowance is affordable)
 }
 
 type Plan struct {
@@ -101,7 +102,7 @@ func (r *runner) emit(m map[string]interface{}) {
 func (r *runner) addr(n *core.Node, name string, from *core.Account) *types.Address {
 	switch {
 	case name == "nil":
-		return nil // admissible: the admission check accepts an empty To (XVM deploy)
+		return nil // the To field is missing (api/grpc refuses it; a block proposed by another node is not checked there)
 	case name == "self":
 		return from.Addr
 	case strings.HasPrefix(name, "admin"):
@@ -166,7 +167,11 @@ func (r *runner) build(n *core.Node, t Tx) pb.Transaction {
 	case "transfer":
 		tx = n.TransferTx(from, r.addr(n, t.To, from), t.Amt)
 	case "invoke":
-		tx = n.InvokeTx(from, contractsByName[t.C].Address(), t.M, mkArgs(t.Args)...)
+		if t.To == "nil" { // structure-level mutation: the callee field is missing
+			tx = n.RawTx(from, nil, core.InvokePayload(t.M, mkArgs(t.Args)...), nil)
+		} else {
+			tx = n.InvokeTx(from, contractsByName[t.C].Address(), t.M, mkArgs(t.Args)...)
+		}
 	case "xvm":
 		td := &pb.TransactionData{Type: pb.TransactionData_INVOKE, VmType: pb.TransactionData_XVM, Payload: core.InvokePayload(t.M, mkArgs(t.Args)...)}
 		b, _ := td.Marshal()
@@ -201,6 +206,8 @@ func (r *runner) build(n *core.Node, t Tx) pb.Transaction {
 			if t.Pay == "kill" {
 				data = core.KillContractInit
 			}
+		case "createloop": // creation whose init code never terminates; not remembered as a contract
+			to = nil
 		case "contract":
 			to = r.ethContract
 			if to == nil {
@@ -227,7 +234,11 @@ func (r *runner) build(n *core.Node, t Tx) pb.Transaction {
 				r.ethContract = a
 			}
 		}
-		return n.EthTxNonce(from, to, val, t.Gas, 1, data, uint64(int(nonce)+t.NonceOff))
+		price := int64(1)
+		if t.Free {
+			price = 0
+		}
+		return n.EthTxNonce(from, to, val, t.Gas, price, data, uint64(int(nonce)+t.NonceOff))
 	default: // raw
 		pay, _ := hex.DecodeString(t.Pay)
 		tx = n.RawTx(from, r.addr(n, t.To, from), pay, nil)
@@ -447,7 +458,18 @@ func genInvoke(rng *rand.Rand, surf []methodInfo, from string) Tx {
 	return Tx{K: "invoke", From: from, C: mi.C, M: mi.M, Args: args, Cls: "invoke-" + cls}
 }
 
+// genTx: one random transaction; now and then its To field is left out altogether (the API refuses that, a block
+// made by another node need not)
 func genTx(rng *rand.Rand, surf []methodInfo, focus string) Tx {
+	t := genTx0(rng, surf, focus)
+	if (t.K == "invoke" || t.K == "raw" || t.K == "xvm") && rng.Intn(25) == 0 {
+		t.To = "nil"
+		t.Cls += "-nilto"
+	}
+	return t
+}
+
+func genTx0(rng *rand.Rand, surf []methodInfo, focus string) Tx {
 	senders := append(append([]string{}, users...), "p0", "p1", "p2", "p3", "p4", "p5", "p6")
 	from := senders[rng.Intn(len(senders))]
 	if rng.Intn(3) > 0 {
@@ -549,8 +571,12 @@ func genEth(rng *rand.Rand, st *ethState) Tx {
 		return Tx{K: "eth", From: ok, To: "u2", Amt: "2999000", Gas: 21000, Cls: "eth-value-not-covered"}
 	case c < 12:
 		return Tx{K: "eth", From: ok, To: "u2", Amt: "1", Gas: 21000, NonceOff: []int{5, -1}[rng.Intn(2)], Cls: "eth-bad-nonce"}
-	case c < 13: // cannot pay for the gas at all
+	case c < 13 && rng.Intn(2) == 0: // cannot pay for the gas at all
 		return Tx{K: "eth", From: "p1", To: "u2", Amt: "0", Gas: 21000, Cls: "eth-no-funds"}
+	case c < 13: // free gas, an allowance far above the block gas limit, init code that loops forever (JUMPDEST PUSH1 0 JUMP)
+		if f := fresh(); f != "" {
+			return Tx{K: "eth", From: f, To: "createloop", Pay: "5b600056", Gas: 1 << 62, Free: true, Cls: "eth-loop-free"}
+		}
 	}
 	return Tx{K: "eth", From: ok, To: "u3", Amt: "7", Gas: 30000, Cls: "eth-transfer"}
 }
